@@ -9,6 +9,7 @@ def explore(run, lean):
     instr_corr.clear_probe(run, "C19", 620 if run.tier == "quick" else 1500)
     instr_corr.handler_clear_probe(run, "C19", 30 if run.tier == "quick" else 600)
     instr_corr.orthogonal_probe(run, "C19", 40 if run.tier == "quick" else 800)
+    instr_corr.reserved_signal_probe(run, "C19")
     instr_corr.prestart_probe(run, "C19")
     run.extra["rule"] = ("random spied charts (<=7 states) on an instrumented HsmWithQueues whose handlers post/defer/recall/scribble; "
                          "scripts of start_at + 2-12 client ops (posts, defer, recall, next_rtc), some with a post before start_at; "
